@@ -17,6 +17,10 @@ type Scenario struct {
 	Force  bool     `json:"force,omitempty"`
 	Base   string   `json:"base"`
 	Gens   []Gen    `json:"gens"`
+	// Globals: GeneratorArgs.Globals.  Only bare enabling tags are used ("gengo:<g>": [""] = g is enabled for every
+	// type of every package).  GlobalsSet: pass a non-nil (possibly empty) map.
+	Globals    map[string][]string `json:"globals,omitempty"`
+	GlobalsSet bool                `json:"globals_set,omitempty"`
 }
 
 type Opts struct {
@@ -335,6 +339,11 @@ func ShrinkScenario(sc Scenario) []Scenario {
 			c.Gens[i].CustomNew = false
 			out = append(out, c)
 		}
+		if sc.Gens[i].Proto {
+			c := clone(sc)
+			c.Gens[i].Proto = false
+			out = append(out, c)
+		}
 	}
 	for pi, p := range sc.Module.Pkgs {
 		for ti := range p.Types {
@@ -359,7 +368,101 @@ func ShrinkScenario(sc Scenario) []Scenario {
 		c.Force = false
 		out = append(out, c)
 	}
+	if len(sc.Globals) > 0 {
+		c := clone(sc)
+		c.Globals, c.GlobalsSet = nil, true
+		out = append(out, c)
+	} else if sc.GlobalsSet {
+		c := clone(sc)
+		c.GlobalsSet = false
+		out = append(out, c)
+	}
+	for pi, p := range sc.Module.Pkgs {
+		if len(p.DocTags) > 0 {
+			c := clone(sc)
+			c.Module.Pkgs[pi].DocTags = p.DocTags[:len(p.DocTags)-1]
+			out = append(out, c)
+		}
+	}
 	return out
+}
+
+// Requested reports whether the package in directory dir (relative to the module root, "" = root) is matched by one of
+// the entrypoint patterns (".", "./d", "./...", "./d/...") — decided from the scenario alone, without gengo's loader.
+func Requested(entry []string, dir string) bool {
+	for _, e := range entry {
+		if e = strings.TrimPrefix(e, "./"); e == "." {
+			e = ""
+		}
+		switch {
+		case e == "...":
+			return true
+		case strings.HasSuffix(e, "/..."):
+			if d := strings.TrimSuffix(e, "/..."); dir == d || strings.HasPrefix(dir, d+"/") {
+				return true
+			}
+		case e == dir:
+			return true
+		}
+	}
+	return false
+}
+
+// RequestedWorld returns a copy of the world in which "direct" is what the scenario's entrypoints request (Requested)
+// instead of what gengo's loader reported, and the paths of the packages on which the two disagree.
+func RequestedWorld(w *World, entry []string) (*World, []string) {
+	c := *w
+	c.Pkgs = append([]WPkg{}, w.Pkgs...)
+	var diff []string
+	for i := range c.Pkgs {
+		want := Requested(entry, c.Pkgs[i].Dir)
+		if want != c.Pkgs[i].Direct {
+			diff = append(diff, c.Pkgs[i].Path)
+		}
+		c.Pkgs[i].Direct = want
+	}
+	sort.Strings(diff)
+	return &c, diff
+}
+
+// InheritTags completes the per-type "enabled" lists of the world (which LoadWorld fills from the tags on the
+// declaration alone) with the tags the declaration inherits by the documented rule globals < package doc < declaration:
+// a generator named in the scenario's Globals is enabled for every type, one named in a package's DocTags for every type
+// of that package — and of no other.  Computed from the scenario, not by gengo's merge.
+func InheritTags(w *World, sc Scenario) {
+	if w == nil {
+		return
+	}
+	docTags := map[string][]string{}
+	some := len(sc.Globals) > 0
+	for _, p := range sc.Module.Pkgs {
+		docTags[p.Dir] = p.DocTags
+		some = some || len(p.DocTags) > 0
+	}
+	if !some {
+		return
+	}
+	for pi := range w.Pkgs {
+		for ti := range w.Pkgs[pi].Types {
+			t := &w.Pkgs[pi].Types[ti]
+			have := map[string]bool{}
+			for _, g := range t.Enabled {
+				have[g] = true
+			}
+			var en []string
+			for _, g := range sc.Gens {
+				_, global := sc.Globals["gengo:"+g.Name]
+				inDoc := false
+				for _, d := range docTags[w.Pkgs[pi].Dir] {
+					inDoc = inDoc || d == g.Name
+				}
+				if have[g.Name] || global || inDoc {
+					en = append(en, g.Name)
+				}
+			}
+			t.Enabled = en
+		}
+	}
 }
 
 // Observation of one scenario run, ready for the case files.
@@ -378,8 +481,10 @@ func RunScenario(sc Scenario, scratch string, wrapper ...string) (*Observation, 
 	if err != nil {
 		return nil, err
 	}
-	job := Job{Dir: root, Entry: sc.Entry, All: sc.All, Force: sc.Force, Base: sc.Base, Gens: sc.Gens, Out: scratch + "/run"}
+	job := Job{Dir: root, Entry: sc.Entry, All: sc.All, Force: sc.Force, Base: sc.Base, Gens: sc.Gens, Out: scratch + "/run",
+		Globals: sc.Globals, GlobalsSet: sc.GlobalsSet}
 	rr := RunChild(job, scratch, wrapper...)
+	InheritTags(rr.World, sc)
 	after, err := Snapshot(root)
 	if err != nil {
 		return nil, err
